@@ -618,3 +618,108 @@ def coord_slice(chk, repo, rid, quals, floor=None):
 def G_find_calls(node, name):
     from sa import guards as G
     return G.find_calls(node, name)
+
+
+# ----------------------------------------------------------------------------- R-TRUTHY: numeric parameters are not tested by truthiness
+TRUTHY_REVIEWED = {
+    # (function, parameter): why the truthiness test is equivalent to `is not None` there
+    ('aa.AminoAcidSeqRecord:AminoAcidSeqRecord.get_local_matched_range', 'seq_len'): 'seq_len = 0 only for the empty sequence, where len(seq) is 0 as well',
+    ('parser.CIRCexplorerParser:CIRCexplorer3KnownRecord.is_valid', 'min_fbr_circ'): 'a threshold of 0 rejects nothing: same as no threshold',
+    ('parser.CIRCexplorerParser:CIRCexplorer3KnownRecord.is_valid', 'min_circ_score'): 'a threshold of 0 rejects nothing: same as no threshold',
+    ('svgraph.TVGNode:TVGNode.stringify', 'k'): 'debug printing only',
+    ('svgraph.TVGNode:TVGNode.check_stop_altering', 'cds_end'): 'a CDS cannot end at transcript index 0',
+}
+
+
+def truthy_numeric(chk, repo, rid, prefixes, floor=0):
+    """A parameter annotated int / float (0 is a legal value: reading frame 0, index 0, offset 0) must be tested with `is None` /
+    `is not None`, never by truthiness: `if frame:` silently treats frame 0 as "not given".  Every truthiness test of such a
+    parameter is an instance; the five that exist in the reference tree are reviewed (TRUTHY_REVIEWED)."""
+    chk.rule(rid, 'R-TRUTHY: numeric parameters (0 is a value) are tested with `is None`, not by truthiness', floor)
+
+    def uses(fn, name):
+        out = []
+
+        def vt(e):
+            if isinstance(e, ast.Name) and e.id == name:
+                out.append(e)
+            elif isinstance(e, ast.BoolOp):
+                for v in e.values:
+                    vt(v)
+            elif isinstance(e, ast.UnaryOp) and isinstance(e.op, ast.Not):
+                vt(e.operand)
+        for n in ast.walk(fn):
+            if isinstance(n, (ast.If, ast.While, ast.IfExp)):
+                vt(n.test)
+            if isinstance(n, ast.comprehension):
+                for c in n.ifs:
+                    vt(c)
+        return out
+    for f in repo.funcs_in(*prefixes):
+        a = f.node.args
+        for p in a.args + a.kwonlyargs:
+            ann = unparse(p.annotation) if p.annotation is not None else ''
+            if not (('int' in ann or 'float' in ann) and not any(x in ann for x in ('List', 'Dict', 'Tuple', 'Set', 'Iterable'))):
+                continue
+            # a parameter that is rebound before the test is no longer the raw argument
+            rebound = any(isinstance(n, ast.Name) and n.id == p.arg and isinstance(n.ctx, ast.Store) for n in ast.walk(f.node))
+            for u in uses(f.node, p.arg):
+                why = TRUTHY_REVIEWED.get((f.qual, p.arg))
+                chk.ob(rid, f"{f.qual}: `{p.arg}` ({ann}) is not tested by truthiness", repo.loc(f, u), why is not None or (rebound and False),
+                       f"the numeric parameter `{p.arg}` of {f.name} is tested by truthiness: the legal value 0 (frame 0, index 0) is treated like a missing argument",
+                       key=f"{f.qual}::truthy::{p.arg}", fn=f.qual)
+
+
+# ----------------------------------------------------------------------------- copy() gives the copy its own mutable containers
+def copy_own_containers(chk, repo, rid, class_quals, floor=1):
+    """For a class whose __init__ stores `self.a = a or set()` / `or []` / `or {}` (the attribute is a mutable container that is
+    later added to in place) a `copy()` / `__copy__` that builds a new instance must hand it a NEW container: `copy.copy(self.a)`,
+    `set(self.a)`, a comprehension ... - never `self.a` itself, or an in-place addition on one copy shows up in its siblings."""
+    from sa import sem
+    chk.rule(rid, 'R-EFFECT: copy() passes fresh copies of the mutable containers of the instance (no aliasing between sibling copies)', floor)
+    FRESH = ('copy', 'deepcopy', 'set', 'list', 'dict', 'sorted', 'frozenset', 'tuple')
+    for cq in class_quals:
+        ci = repo.classes.get(cq)
+        if ci is None:
+            raise AnalysisError(f"anchor={cq}: class not found")
+        init = ci.methods.get('__init__')
+        cp = ci.methods.get('copy') or ci.methods.get('__copy__')
+        if init is None or cp is None:
+            raise AnalysisError(f"anchor={cq}: __init__ / copy not found")
+        chk.uses(init, cp)
+        mutable = {}
+        for st in ast.walk(init.node):
+            if isinstance(st, ast.Assign) and len(st.targets) == 1 and isinstance(st.targets[0], ast.Attribute) and unparse(st.targets[0].value) == 'self':
+                v = st.value
+                if isinstance(v, ast.BoolOp) and isinstance(v.op, ast.Or) and len(v.values) == 2 and isinstance(v.values[0], ast.Name):
+                    d = v.values[1]
+                    if (isinstance(d, ast.Call) and call_name(d) in ('set', 'list', 'dict') and not d.args) or (isinstance(d, (ast.List, ast.Dict, ast.Set)) and not getattr(d, 'elts', getattr(d, 'keys', []))):
+                        mutable[st.targets[0].attr] = v.values[0].id
+        ctor = [c for c in ast.walk(cp.node) if isinstance(c, ast.Call) and unparse(c.func) in ('self.__class__', ci.node.name, 'type(self)')]
+        if len(ctor) != 1:
+            chk.undecided(rid, f"{cq}.copy", cp.where, 'the constructor call of the copy was not found', key=cp.qual + '::ctor', fn=cp.qual)
+            continue
+        ch = sem.block_chains(cp.node)
+        st_c = repo.enclosing_stmt(ctor[0])
+        iparams = [a.arg for a in init.node.args.args][1:]
+        for attr, param in sorted(mutable.items()):
+            v = kwarg(ctor[0], param)
+            if v is None and param in iparams and iparams.index(param) < len(ctor[0].args):
+                v = ctor[0].args[iparams.index(param)]
+            if v is None:
+                continue
+            e = sem.expand_names(cp.node, st_c, v, chains=ch, allow_calls=FRESH)
+
+            def is_fresh(x):
+                if isinstance(x, ast.IfExp):
+                    return is_fresh(x.body) and is_fresh(x.orelse)
+                if isinstance(x, ast.Call) and call_name(x) in ('set', 'list', 'dict') and not x.args:
+                    return True          # a new empty container
+                return (isinstance(x, ast.Call) and call_name(x) in FRESH and x.args and f'self.{attr}' in unparse(x.args[0])) or \
+                    (isinstance(x, (ast.ListComp, ast.SetComp, ast.DictComp)) and f'self.{attr}' in unparse(x)) or \
+                    (isinstance(x, (ast.Set, ast.List)) and any(isinstance(y, ast.Starred) for y in x.elts))
+            fresh = is_fresh(e)
+            chk.ob(rid, f"{cq}.copy: {param} is a fresh copy of self.{attr}", repo.loc(cp, ctor[0]), fresh,
+                   f"{ci.node.name}.copy() passes `{unparse(e)}` as {param}: the copy shares the container self.{attr} with the original, so an in-place "
+                   f"addition made through one copy (e.g. `{attr}.add(...)` / `.update(...)` on a traversal cursor) appears in all of them",
+                   key=f"{cp.qual}::own::{attr}", fn=cp.qual)
